@@ -30,8 +30,12 @@ func (rd *ReorgDetector) Subscribe(id string) (*Subscription, error) {
 	return sub, nil
 }
 
-// notifySubscriber notifies the subscriber with the block of the reorg
-func (rd *ReorgDetector) notifySubscriber(id string, startingBlock header) {
+// notifySubscriber notifies the subscriber with the block of the reorg.
+// whileHandling (if not nil) is called once the subscriber has taken the notification and before its
+// acknowledgement is received: the subscriber does not add blocks to track while it handles the reorg,
+// and starts tracking the blocks of the new fork as soon as it has acknowledged it.
+// It returns false if there is no such subscriber (whileHandling is not called then).
+func (rd *ReorgDetector) notifySubscriber(id string, startingBlock header, whileHandling func()) bool {
 	// Notify subscriber about this particular reorg
 	rd.subscriptionsLock.RLock()
 	sub, ok := rd.subscriptions[id]
@@ -40,8 +44,13 @@ func (rd *ReorgDetector) notifySubscriber(id string, startingBlock header) {
 	if ok {
 		rd.log.Infof("Reorg detected for subscriber %s at block %d", id, startingBlock.Num)
 		sub.ReorgedBlock <- startingBlock.Num
+		if whileHandling != nil {
+			whileHandling()
+		}
 		<-sub.ReorgProcessed
 	}
+
+	return ok
 }
 
 // getSubscriberIDs returns a list of subscriber IDs
